@@ -165,6 +165,58 @@ def library_pool(with_doit: bool = True) -> list[dict]:  # noqa: PLR0914, PLR091
     return out
 
 
+def random_entry(seed) -> dict:
+    """A seeded random composite of library expressions: 2-3 pool members combined by arithmetic,
+    functions, nesting (one member substituted for a symbol of another) and PoolSum/indices."""
+    import random  # noqa: PLC0415
+
+    import sympy as sp  # noqa: PLC0415
+
+    from ampform.sympy import PoolSum  # noqa: PLC0415
+
+    rng = random.Random(f"random-expr:{seed}")
+    pool = library_pool(with_doit=False)
+    scalars = [e for e in pool if not e["expr"].atoms(sp.MatrixSymbol) and "Matrix" not in e["cls"]
+               and "Array" not in e["cls"] and not e["name"].startswith(("ArraySum", "ArraySlice", "ThreeMomentum",
+                                                                         "NegativeMomentum", "MinkowskiMetric", "_"))]
+    picks = rng.sample(scalars, k=rng.choice([2, 3]))
+    expr = picks[0]["expr"]
+    names = [picks[0]["name"]]
+    for other in picks[1:]:
+        names.append(other["name"])
+        op = rng.choice(["add", "mul", "pow", "nest", "abs", "sqrt", "frac", "number"])
+        b = other["expr"]
+        if op == "add":
+            expr = expr + rng.choice([1, 2, sp.Rational(1, 2)]) * b
+        elif op == "mul":
+            expr = expr * b
+        elif op == "pow":
+            expr = expr ** rng.choice([2, -1, sp.Rational(1, 2)]) + b
+        elif op == "abs":
+            expr = sp.Abs(expr) ** 2 * b
+        elif op == "sqrt":
+            expr = sp.sqrt(expr + b)
+        elif op == "frac":
+            expr = expr / (1 + b**2)
+        elif op == "number":
+            # a partially evaluated expression: one symbol replaced by a number (Float, Rational, complex, pi)
+            symbols = sorted((s for s in b.free_symbols if isinstance(s, sp.Symbol)), key=lambda s: s.name)
+            value = rng.choice([sp.Float("1.25"), sp.Rational(3, 7), 2 + sp.I, sp.pi, sp.Integer(0), sp.Float("-0.5")])
+            expr = expr + (b.xreplace({rng.choice(symbols): value}) if symbols else b)
+        else:
+            symbols = sorted((s for s in expr.free_symbols if isinstance(s, sp.Symbol)), key=lambda s: s.name)
+            if symbols and not b.atoms(sp.Indexed):
+                expr = expr.xreplace({rng.choice(symbols): b})
+            else:
+                expr = expr - b
+    if rng.random() < 0.3:
+        k = sp.Symbol("k_idx", integer=True)
+        expr = PoolSum(expr * sp.Symbol("w")**k, (k, [0, 1, 2][: rng.choice([2, 3])]))
+    # the glue is plain SymPy, whose constructors are not idempotent on every expression (Abs(1/x) vs
+    # 1/Abs(x), ...): like unfolded results these entries are compared through the reconstruction N
+    return {"name": "random:" + "|".join(names), "expr": expr, "unfolded": True, "cls": "random-composite"}
+
+
 def twin_entry(name: str) -> dict:
     """One member of a family of expressions that differ in a single non-SymPy attribute, nested
     below Add/Mul/Pow.  Built on demand and alone: constructing two members in one process lets
@@ -193,6 +245,13 @@ def pool_entry(k) -> dict:
     """Entry ``k`` of the doubled pool: k < N folded, k >= N the unfolded form of entry k-N."""
     if isinstance(k, str) and k.startswith("twin:"):
         return twin_entry(k)
+    if isinstance(k, str) and k.startswith("rand:"):
+        entry = random_entry(k[5:].rstrip("u"))
+        if k.endswith("u"):
+            unfolded = entry["expr"].doit()
+            if unfolded != entry["expr"]:
+                return {"name": entry["name"] + ".doit()", "expr": unfolded, "unfolded": True, "cls": entry["cls"]}
+        return entry
     pool = library_pool(with_doit=False)
     n = len(pool)
     if isinstance(k, str):
